@@ -5,7 +5,7 @@ pure-Python source in the working tree (whose meaning is the subject of C07/C10-
 
   (a) the interpreted modules of the working tree                                  -- the reference
   (b) the extension modules produced by the documented build `make ACC=pycc LANGUAGE=fortran pycc` in a scratch copy of
-      the working tree (outside /repo and /verif, removed afterwards), imported in a separate process   [thorough tier]
+      the working tree (outside /repo and /verif, removed afterwards), imported in a separate process   [both tiers]
   (c) the `pythran_*` copies run as plain Python and the `numba_*` copies run with a stub `numba`
 
 Every function defined in the five reference modules is called in every variant on the same generated argument tuples
@@ -349,10 +349,9 @@ def run(chk):
             # the generators are meant to produce arguments the reference accepts
             chk.count('reference %s: %s.%s' % (r[0], c['module'], c['kernel']))
     run_interpreted(chk, cases, ref_results, variants, stats, hangs)
-    if not chk.quick():
-        build_and_run(chk, cases, ref_results, ref_names, stats)
-    else:
-        chk.notes['build'] = 'not run in the quick tier'
+    # the documented build takes ~15 s here and is part of the property ("the documented build succeeds on the current tree";
+    # compiled = interpreted): it runs in both tiers (the thorough tier only uses more argument tuples)
+    build_and_run(chk, cases, ref_results, ref_names, stats)
     covrep = cov.report()
     low = {k: v for k, v in covrep.items() if v['pct'] < 90.0}
     chk.extra_cov['programs'] = len(kernels)
@@ -369,7 +368,7 @@ def run(chk):
         chk.diff('reference functions without generated arguments', {'functions': not_run}, 'every function of the five modules is exercised', not_run)
     chk.assumptions = ['the pure-Python source of a kernel is its specification (its meaning is the subject of C07/C10-C12/C16)',
                        'pythran copies are executed as plain Python, numba copies with a stub numba: the pythran / numba compilers themselves are not installed and not exercised',
-                       'compiled variant: pyccel 2.0.1 + gfortran as installed; thorough tier only',
+                       'compiled variant: pyccel 2.0.1 + gfortran as installed (both tiers)',
                        'agreement = within 1e-12 of the magnitude of the summed terms (bit-equality recorded in the evidence)']
     chk.trusted = chk.trusted + ['pyccel/gfortran tool chain of this machine for variant (b); CPython for (a) and (c)']
     return finish_local(chk, LOCAL_KNOWN)
